@@ -11,6 +11,7 @@ import Sb.Corr.Codec
 import Sb.Corr.Container
 import Sb.Corr.YawOps
 import Sb.Corr.LightOps
+import Sb.Corr.RthOps
 
 open Sb.Corr
 
@@ -30,6 +31,7 @@ def dispatch (op : String) (args impl : List String) : Verdict :=
   | "crcupd" => opCrcUpd args impl
   | "fcorr" => opFcorr args impl
   | "lightq" => opLightq args impl
+  | "rth" => opRth args impl
   | "traj" => opTraj args impl
   | "yawq" => opYawq args impl
   | "facc" => opFacc args impl
